@@ -129,3 +129,15 @@ def kernel_gates(rep, F, which, rule='KERNEL-GATE'):
         else:
             rep.ok(rule, key, 'called only from %s (%s)' % (', '.join(c.split('::')[-1] for c in callers), why), F.fns[tgt].where())
     return n
+
+
+def default_form(rep, F, pat):
+    """the default-context form passes Context::default() (built only from the generated constants) to the explicit form"""
+    from rules import prov as _prov, provrules as _R
+    if not hasattr(F, '_prov'):
+        F._prov = _prov.ProvEngine(F)
+    before = len(rep.obs)
+    _R.default_ops(rep, F, F._prov, rule='PROV-DEFAULTOPS')
+    keep = [o for o in rep.obs[before:] if re.search(pat, o['key'])]
+    rep.obs = rep.obs[:before] + keep
+    return len(keep)
